@@ -186,6 +186,42 @@ def props_check(prop_id):
     return res
 
 
+def props_check_many(ids):
+    """props_check over several theorem files (e.g. Props/C16.v and Props/C16_stack.v)."""
+    res = dict(ok=True, theorems=[], log="", file=" ".join("Props/%s.vo" % i for i in ids))
+    for i in ids:
+        r = props_check(i)
+        res["ok"] = res["ok"] and r["ok"]
+        res["theorems"].extend(r["theorems"])
+        res["log"] += r["log"]
+        if "failed_at" in r and "failed_at" not in res:
+            res["failed_at"] = r["failed_at"]
+    return res
+
+
+def merge_stats(a, b, name=None):
+    """Combine the stats.json of several drivers of one property."""
+    if not a:
+        out = dict(b)
+        if name:
+            out["rule"] = "[%s] %s" % (name, b.get("rule", ""))
+            out["distribution"] = {"%s/%s" % (name, k): v for k, v in b.get("distribution", {}).items()}
+        return out
+    out = dict(a)
+    for k in ("evaluations", "distinct_nontrivial", "oracle_failures"):
+        out[k] = int(a.get(k, 0)) + int(b.get(k, 0))
+    out["rule"] = a.get("rule", "") + " || [%s] %s" % (name, b.get("rule", ""))
+    out["samples"] = (a.get("samples", []) + b.get("samples", []))
+    d = dict(a.get("distribution", {}))
+    for k, v in b.get("distribution", {}).items():
+        d["%s/%s" % (name, k)] = v
+    out["distribution"] = d
+    for k, v in b.items():
+        if k not in out:
+            out[k] = v
+    return out
+
+
 def eval_cases(case_files, jobs=16, timeout=1500):
     """Compile each cases_*.v (written by a driver) and collect the mismatch ids it prints.
 
